@@ -110,11 +110,11 @@ func (c checkingAssigner) Names() []string { return c.inner.(jrpc2.Namer).Names(
 func c17Trees() []*refTree {
 	leaf := func(name string, ms ...string) *refTree { return &refTree{Name: name, Methods: ms} }
 	return []*refTree{
-		leaf("M", "a", "a.b", "a..b", ".a", "a.", "rpc", "rpc.", "rpc.a", "rpc.serverInfo", "RPC.a", "é", "b", "r.p.c"),
+		leaf("M", "a", "a.b", "a..b", ".a", "a.", "rpc", "rpc.", "rpc.a", "rpc.serverInfo", "RPC.a", "é", "b", "r.p.c", "rpc.a.b", "rpc..a", "rpc.a.", "rpc.serverInfo.a"),
 		{Name: "S1", Services: map[string]*refTree{
 			"a":   leaf("S1a", "b", "", "a.b", ".c", "a"),
 			"":    leaf("S1empty", "a", ""),
-			"rpc": leaf("S1rpc", "a", "serverInfo"),
+			"rpc": leaf("S1rpc", "a", "serverInfo", "a.b", ".a", "a."),
 			"a.b": leaf("S1unreachable", "c"),
 			"c.c": leaf("S1dotted", "a"),
 			"a-":  leaf("S1a-", "b", "a"), // a service name that has another one as prefix, continued by a byte below '.'
@@ -124,11 +124,12 @@ func c17Trees() []*refTree {
 		}},
 		{Name: "S3", Services: map[string]*refTree{
 			"a": {Name: "S3a", Services: map[string]*refTree{
-				"b": {Name: "S3ab", Services: map[string]*refTree{"c": leaf("S3abc", "a", "", "r.p")}},
-				"":  leaf("S3a-empty", "b"),
+				"b":  {Name: "S3ab", Services: map[string]*refTree{"c": leaf("S3abc", "a", "", "r.p")}},
+				"":   leaf("S3a-empty", "b"),
 				"b+": leaf("S3ab+", "c"),
 			}},
-			"r": leaf("S3r", "p", "p.c"),
+			"r":   leaf("S3r", "p", "p.c"),
+			"rpc": {Name: "S3rpc", Services: map[string]*refTree{"a": leaf("S3rpca", "b", "")}},
 		}},
 	}
 }
